@@ -11,16 +11,19 @@ SOURCES = ['src/opus_decoder.c', 'src/opus_multistream_decoder.c', 'src/opus_pri
 _THMS = ('gain_api_entry_points', 'gain_history_simulation', 'gain_history_same_returns', 'gain_pass_last_in_frame',
          'gain_scaling_samplewise', 'gain_log_separated', 'gain_history_output_scaled')
 REQUIRED_THEOREMS = ['OpusProps.C19Gain.' + t for t in _THMS]
-UNPROVED = ['coverage: that the gain passes of a successful call with gain != 0 cover EVERY sample of [0, ret*channels) of the '
-            'caller\'s buffer is not a theorem (proved: each pass covers exactly its frame\'s audiosize*channels samples from the '
-            'frame\'s own pcm pointer, frames are consecutive, no sample is covered twice, nothing later reads a covered sample); '
-            'an uncovered sample would come out unscaled — searched bit for bit on every sample in S4',
-            'int16 API (opus_decode): the soft clipper runs over the whole output after all gain passes and is not linear; the '
-            'history theorem gain_history_output_scaled is for calls without soft clip (float, int24, native/multistream); for '
-            'int16 the return values / state / events part (gain_history_same_returns) is proved, the sample relation '
-            'int16 = FLOAT2INT16(softclip(k*pcm_0)) is searched in S4',
+UNPROVED = ['which samples ARE covered by a gain pass: proved is that each pass covers exactly its frame\'s audiosize*channels samples '
+            'from the frame\'s own pcm pointer, that frames / concealment chunks are consecutive, that no sample is covered twice '
+            'and nothing later reads a covered sample, and that samples not covered are IDENTICAL in both runs. Not a theorem: '
+            'that with gain != 0 every sample of [0, ret*channels) is covered — it is not true of the code either: a lost packet '
+            'before the first decoded packet (prev_mode == 0) returns zeros without a gain pass, src/opus_decoder.c:320-327 '
+            '(identical = scaled there because the samples are 0). Searched bit for bit on every output sample in S4',
+            'int16 API (opus_decode): the soft clipper runs over the whole output after all gain passes and is not linear; '
+            'gain_history_output_scaled gives for such calls the simulation part only (returns, packet offsets, events, state); the '
+            'sample relation int16 = FLOAT2INT16(softclip(k*pcm_0)) is searched in S4',
             'DspLocal (footprint of SILK / CELT / the cross-fade loops: write only the logged extent, read only that extent '
-            'and the scratch buffers, never decode_gain) is an ASSUMPTION of the sample theorems, not proved about the DSP code']
+            'and the scratch buffers, never decode_gain) is an ASSUMPTION of the sample theorems, not proved about the DSP code',
+            'the fan-out loop of OPUS_SET_GAIN in opus_multistream_decoder_ctl is not modelled (each stream decoder is one '
+            'history of the theorems; that the ctl reaches every stream is searched in S4, mode `ms`)']
 RULE = ('stratified/random (seeded) HISTORIES on twin real decoders (gain 0 / gain g, ASan+UBSan build). Per history: encoder and '
         'decoder rate in {8,12,16,24,48} kHz and channel count 1..2 drawn independently; 8..21 steps; packet source by '
         'strategy (history index mod 4): automatic mode at varying bitrates / ONE encoder whose forced mode (SILK-only, hybrid, '
@@ -35,7 +38,10 @@ RULE = ('stratified/random (seeded) HISTORIES on twin real decoders (gain 0 / ga
         'streams, 0..all coupled, decoder mapping equal to the encoder\'s or random incl. muted (255) and duplicated '
         'channels, lost packets, FEC, resets, gain changes. A case is one decoder call; distinct by (step kind, packet mode, '
         'API) — the histogram is printed in STAT.')
-NOT_COVERED = ['the VALUE of the gain factor (10^(g/5120)) is C19\'s gainsearch, not this slice; here the factor is whatever the '
+NOT_COVERED = ['OPUS_GET_FINAL_RANGE: rangeFinal is not a field of the skeleton\'s state (it comes from the range decoder / CELT, which the '
+               'skeleton treats as oracles; proved is that the oracle calls and their arguments are identical for gain g and gain 0); '
+               'its equality is searched on the implementation after every call',
+               'the VALUE of the gain factor (10^(g/5120)) is C19\'s gainsearch, not this slice; here the factor is whatever the '
                'library\'s expression celt_exp2(6.48814081e-4f*g) evaluates to in the harness TU',
                'redundancy frames cannot be observed from outside; they are provoked (forced-mode switches of one encoder) '
                'and counted only as mode transitions seen in the TOC',
